@@ -65,6 +65,12 @@ fn err_name(e: &TzError) -> String {
 
 /// C01 check of one instant; returns Err(description) on disagreement.
 #[inline]
+/// local time types of the fixed-offset source zones of the projection route
+fn offset_types() -> &'static [tz::LocalTimeType] {
+    static T: std::sync::OnceLock<Vec<tz::LocalTimeType>> = std::sync::OnceLock::new();
+    T.get_or_init(|| [-3600, 3600, -86_399, 93_599, i32::MAX, i32::MIN + 1].iter().map(|&o| tz::LocalTimeType::with_ut_offset(o).expect("offset type")).collect())
+}
+
 fn check_gmtime(cyc: &Cycle, c: &Civil, s: i64, ns: u32, with_dt: bool) -> Result<u64, (Value, Value)> {
     let t = match c.day.checked_mul(SECS_PER_DAY).and_then(|x| x.checked_add(s)) {
         Some(t) => t,
@@ -122,6 +128,37 @@ fn check_gmtime_t(_cyc: &Cycle, c: &Civil, t: i64, s: i64, ns: u32, with_dt: boo
                         }
                         Err(e) => return Err((json!({"via":"DateTime::new(second 60).project(utc)"}), json!(err_name(&e)))),
                     }
+                }
+            }
+        }
+        // a source shown with a non-zero offset may hold an instant up to |offset| outside the UTC range: projecting it onto UTC
+        // must give this instant's UTC fields, or refuse when they do not exist
+        if t & 15 == 0 || t < MIN_UNIX_TIME + (1 << 21) || t > MAX_UNIX_TIME - (1 << 21) {
+            for lt in offset_types() {
+                let one = [*lt];
+                let zone = match TimeZoneRef::new(&[], &one, &[], &None) {
+                    Ok(z) => z,
+                    Err(e) => return Err((json!("fixed-offset zone"), json!(err_name(&e)))),
+                };
+                let src = match DateTime::from_timespec(t, ns, zone) {
+                    Ok(s) => s,
+                    Err(_) => continue, // the local date-time itself is not representable (judged by C03 / C14)
+                };
+                let via = format!("DateTime::from_timespec(t, ns, fixed {}).project(utc)", lt.ut_offset());
+                match src.project(TimeZoneRef::utc()) {
+                    Ok(d) => {
+                        let good = exp_ok && d.year() as i64 == c.year && d.month() == c.month && d.month_day() == c.mday && d.hour() == h && d.minute() == mi && d.second() == se
+                            && d.nanoseconds() == ns && d.week_day() == c.wday && d.year_day() == c.yday && d.unix_time() == t && d.local_time_type().ut_offset() == 0;
+                        if !good {
+                            return Err((if exp_ok { json!({"via":via,"year":c.year,"month":c.month,"mday":c.mday,"h":h,"m":mi,"s":se}) } else { json!({"via":via,"expected":"Err(OutOfRange)"}) }, json!(format!("{d:?}"))));
+                        }
+                    }
+                    Err(TzError::OutOfRange) => {
+                        if exp_ok {
+                            return Err((json!({"via":via,"year":c.year}), json!("Err(OutOfRange)")));
+                        }
+                    }
+                    Err(e) => return Err((json!({"via":via,"expected":"Ok or OutOfRange"}), json!(err_name(&e)))),
                 }
             }
         }
@@ -190,7 +227,13 @@ pub fn wrap_total_candidates() -> Vec<i128> {
     let ts: [i64; 9] = [0, 1, -1, 86_400, -86_400, 951_868_800, 1_700_000_000, MIN_UNIX_TIME, MAX_UNIX_TIME];
     let mut totals: Vec<i128> = vec![];
     // the wrapped quantity may be the count of nanoseconds, seconds, minutes, hours, days or weeks
-    let units: [i128; 6] = [1, 1_000_000_000, 60_000_000_000, 3_600_000_000_000, 86_400_000_000_000, 604_800_000_000_000];
+    // ... or of any decimal unit (10^j ns: microseconds, milliseconds, blocks of 10^k seconds)
+    let mut units: Vec<i128> = vec![1, 1_000_000_000, 60_000_000_000, 3_600_000_000_000, 86_400_000_000_000, 604_800_000_000_000];
+    for j in 1..=27u32 {
+        if j != 9 {
+            units.push(10i128.pow(j));
+        }
+    }
     for m in 20..=126u32 {
         for k in [-3i128, -2, -1, 1, 2, 3] {
             for &t in &ts {
@@ -572,6 +615,12 @@ fn sweep_out_of_range(cyc: &Cycle, rec: &Recorder, thorough: bool) -> Tally {
             }
         }
     }
+    // the last / first instants a source shown with each offset of the projection route can hold
+    for lt in offset_types() {
+        let o = lt.ut_offset() as i64;
+        ranges.push((MAX_UNIX_TIME - o - 3, MAX_UNIX_TIME - o + 3));
+        ranges.push((MIN_UNIX_TIME - o - 3, MIN_UNIX_TIME - o + 3));
+    }
     ranges.push((951868800 - 100_000, 951868800 + 100_000));
     ranges.push((i64::MIN + 951868800 - 1000, i64::MIN + 951868800 + 1000));
     let t = ranges
@@ -800,6 +849,78 @@ fn sweep_years(cyc: &Cycle, rec: &Recorder, thorough: bool) -> Tally {
     Tally { states: 0, nontrivial: 0, ..total }
 }
 
+type FieldsT = (i64, u8, u8, u8, u8, u8, u32);
+
+fn check_order_pair(fa: &FieldsT, a: &UtcDateTime, fb: &FieldsT, b: &UtcDateTime, rec: &Recorder, sweep: &str) {
+    use std::cmp::Ordering;
+    let exp = fa.cmp(fb);
+    let arr = |f: &FieldsT| json!([f.0, f.1, f.2, f.3, f.4, f.5, f.6]);
+    let case = || json!({"kind":"order","a":arr(fa),"b":arr(fb)});
+    match guard(|| (a.cmp(b), a.partial_cmp(b), a < b, a == b, std::cmp::max(*a, *b) == if exp == Ordering::Less { *b } else { *a }, (a.unix_time() as i128, a.nanoseconds()).cmp(&(b.unix_time() as i128, b.nanoseconds())))) {
+        Ok((c, pc, lt, eq, mx, by_instant)) => {
+            if c != exp || pc != Some(exp) || lt != (exp == Ordering::Less) || eq != (exp == Ordering::Equal) || !mx || by_instant != exp {
+                rec.violation(sweep, case(), json!(format!("{exp:?} by every comparison")), json!(format!("cmp {c:?}, partial_cmp {pc:?}, < {lt}, == {eq}, max ok {mx}, by unix time {by_instant:?}")));
+            }
+        }
+        Err(m) => rec.violation(sweep, case(), json!("no panic"), json!(m)),
+    }
+}
+
+/// C02: "a later calendar date always gives a strictly larger Unix time" for every PAIR of date-times, also far apart:
+/// the derived order of UtcDateTime (cmp, <, ==, max) equals the lexicographic order of the fields and the order of the instants
+fn sweep_order_pairs(cyc: &Cycle, rec: &Recorder, thorough: bool) -> Tally {
+    let mut years: Vec<i64> = vec![i32::MIN as i64, i32::MIN as i64 + 1, -1, 0, 1, 1969, 1970, 2000, i32::MAX as i64 - 1, i32::MAX as i64];
+    for k in 1..31 {
+        years.push(1i64 << k);
+        years.push(-(1i64 << k));
+    }
+    for k in 1..10 {
+        years.push(10i64.pow(k));
+        years.push(-(10i64.pow(k)));
+    }
+    let steps: i64 = if thorough { 257 } else { 67 };
+    for i in 0..=steps {
+        years.push(i32::MIN as i64 + ((u32::MAX as i64) * i) / steps);
+    }
+    years.sort();
+    years.dedup();
+    let variants: [(u8, u8, u8, u8, u8, u32); 5] = [(1, 1, 0, 0, 0, 0), (12, 31, 23, 59, 59, 999_999_999), (6, 15, 12, 30, 30, 5), (6, 15, 12, 30, 30, 6), (2, 28, 23, 59, 59, 0)];
+    let mut items: Vec<(FieldsT, UtcDateTime)> = vec![];
+    for &y in &years {
+        for &(mo, d, h, mi, se, ns) in &variants {
+            match UtcDateTime::new(y as i32, mo, d, h, mi, se, ns) {
+                Ok(u) => items.push(((y, mo, d, h, mi, se, ns), u)),
+                Err(e) => rec.violation("order_pairs", json!({"kind":"fields","y":y,"mo":mo,"d":d,"h":h,"mi":mi,"s":se,"ns":ns}), json!("Ok"), json!(err_name(&e))),
+            }
+        }
+    }
+    let n = items.len();
+    let t = (0..n)
+        .into_par_iter()
+        .map(|i| {
+            let mut tl = Tally::default();
+            let (fa, a) = &items[i];
+            let day_a = cyc.day_of(fa.0, fa.1, fa.2 as i64);
+            let ta = day_a as i128 * 86_400 + fa.3 as i128 * 3600 + fa.4 as i128 * 60 + fa.5 as i128;
+            for (fb, b) in items.iter() {
+                let day_b = cyc.day_of(fb.0, fb.1, fb.2 as i64);
+                let tb = day_b as i128 * 86_400 + fb.3 as i128 * 3600 + fb.4 as i128 * 60 + fb.5 as i128;
+                let exp = fa.cmp(fb);
+                tl.evals += 1;
+                if (fa.0 - fb.0).abs() >= 1 << 31 {
+                    tl.nontrivial += 1;
+                }
+                check_order_pair(fa, a, fb, b, rec, "order_pairs");
+                // model self check: the lexicographic order of the fields is the order of the true instants
+                assert_eq!(exp, (ta, fa.6).cmp(&(tb, fb.6)));
+            }
+            tl
+        })
+        .reduce(Tally::default, Tally::merge);
+    rec.sub("order_pairs", json!({"date_times": n, "pairs": t.evals, "pairs_2^31_years_or_more_apart": t.nontrivial}));
+    Tally { nontrivial: 0, ..t }
+}
+
 pub fn run(args: &Args) -> i32 {
     let c02 = args.prop == "C02";
     let rec = Recorder::new(args, "model_checking");
@@ -823,6 +944,7 @@ pub fn run(args: &Args) -> i32 {
     if c02 {
         total = total.merge(sweep_validity(&cyc, &rec, thorough));
         total = total.merge(sweep_years(&cyc, &rec, thorough));
+        total = total.merge(sweep_order_pairs(&cyc, &rec, thorough));
     } else {
         total = total.merge(sweep_out_of_range(&cyc, &rec, thorough));
     }
@@ -890,6 +1012,14 @@ pub fn replay(case: &Value, args: &Args) -> i32 {
             let g = |k: &str| case[k].as_i64().unwrap_or(0);
             for _ in 0..2 {
                 check_new(&cyc, g("y") as i32, g("mo") as u8, g("d") as u8, g("h") as u8, g("mi") as u8, g("s") as u8, g("ns") as u32, &rec, "replay");
+            }
+        }
+        "order" => {
+            let f = |v: &Value| -> FieldsT { (v[0].as_i64().unwrap(), v[1].as_u64().unwrap() as u8, v[2].as_u64().unwrap() as u8, v[3].as_u64().unwrap() as u8, v[4].as_u64().unwrap() as u8, v[5].as_u64().unwrap() as u8, v[6].as_u64().unwrap() as u32) };
+            let (fa, fb) = (f(&case["a"]), f(&case["b"]));
+            let mk = |f: &FieldsT| UtcDateTime::new(f.0 as i32, f.1, f.2, f.3, f.4, f.5, f.6).expect("recorded date-times were constructible");
+            for _ in 0..2 {
+                check_order_pair(&fa, &mk(&fa), &fb, &mk(&fb), &rec, "replay");
             }
         }
         "years" => {
